@@ -3,6 +3,7 @@ mod c03;
 mod c04;
 mod c05;
 mod c06;
+mod c09;
 mod c10;
 mod c11;
 mod c12;
@@ -116,6 +117,7 @@ fn real_main(args: Vec<String>) -> i32 {
                 "C05" => c05::run(&ctx),
                 "C06" => c06::run(&ctx, false),
                 "C07" => c06::run(&ctx, true),
+                "C09" => c09::run(&ctx),
                 "C10" => c10::run(&ctx),
                 "C11" => c11::run(&ctx),
                 "C12" => c12::run(&ctx),
